@@ -40,13 +40,24 @@ pub fn wire(rec: &mut Recorder, rng: &mut Rng, thorough: bool) {
         }
     }
     for (sbn, esi) in pids {
-        let p = PayloadId::new(sbn, esi);
-        let ser = p.serialize();
-        rec.put(&format!("pid new {sbn} {esi}"), &hex(&ser));
-        let d = PayloadId::deserialize(&ser);
-        rec.put(&format!("pid de {}", hex(&ser)), &format!("{} {}", d.source_block_number(), d.encoding_symbol_id()));
-        if d != p {
-            rec.impl_violation(format!("PayloadId round trip sbn={sbn} esi={esi}"));
+        let r = guarded(move || {
+            let p = PayloadId::new(sbn, esi);
+            let ser = p.serialize();
+            let d = PayloadId::deserialize(&ser);
+            (ser, format!("{} {}", d.source_block_number(), d.encoding_symbol_id()), d == p)
+        });
+        match r {
+            Ok((ser, de, same)) => {
+                rec.put(&format!("pid new {sbn} {esi}"), &hex(&ser));
+                rec.put(&format!("pid de {}", hex(&ser)), &de);
+                if !same {
+                    rec.impl_violation(format!("PayloadId round trip sbn={sbn} esi={esi}"));
+                }
+            }
+            Err(_) => {
+                rec.put(&format!("pid new {sbn} {esi}"), "err");
+                rec.impl_violation(format!("PayloadId new/serialize/deserialize panics for sbn={sbn} esi={esi}"));
+            }
         }
         rec.count("pid");
     }
@@ -59,10 +70,22 @@ pub fn wire(rec: &mut Recorder, rng: &mut Rng, thorough: bool) {
     // arbitrary 4-byte buffers: parse, re-serialise
     for _ in 0..(if thorough { 20000 } else { 2000 }) {
         let b = rng.bytes(4);
-        let d = PayloadId::deserialize(&[b[0], b[1], b[2], b[3]]);
-        rec.put(&format!("pid de {}", hex(&b)), &format!("{} {}", d.source_block_number(), d.encoding_symbol_id()));
-        if d.serialize() != b[..] {
-            rec.impl_violation(format!("PayloadId re-serialise {}", hex(&b)));
+        let bb = b.clone();
+        let r = guarded(move || {
+            let d = PayloadId::deserialize(&[bb[0], bb[1], bb[2], bb[3]]);
+            (format!("{} {}", d.source_block_number(), d.encoding_symbol_id()), d.serialize() == bb[..])
+        });
+        match r {
+            Ok((de, same)) => {
+                rec.put(&format!("pid de {}", hex(&b)), &de);
+                if !same {
+                    rec.impl_violation(format!("PayloadId re-serialise {}", hex(&b)));
+                }
+            }
+            Err(_) => {
+                rec.put(&format!("pid de {}", hex(&b)), "err");
+                rec.impl_violation(format!("PayloadId::deserialize panics on {}", hex(&b)));
+            }
         }
         rec.count("pid_buf");
     }
@@ -74,16 +97,40 @@ pub fn wire(rec: &mut Recorder, rng: &mut Rng, thorough: bool) {
             let sbn = rng.below(256) as u8;
             let esi = edge32(rng);
             let data = rng.bytes(len);
-            let pkt = EncodingPacket::new(PayloadId::new(sbn, esi), data.clone());
-            let ser = pkt.serialize();
-            rec.put(&format!("pkt ser {sbn} {esi} {}", hex(&data)), &hex(&ser));
-            let d = EncodingPacket::deserialize(&ser);
-            rec.put(
-                &format!("pkt de {}", hex(&ser)),
-                &format!("{} {} {}", d.payload_id().source_block_number(), d.payload_id().encoding_symbol_id(), hex(d.data())),
-            );
-            if d != pkt {
-                rec.impl_violation(format!("packet round trip sbn={sbn} esi={esi} len={len}"));
+            let data2 = data.clone();
+            let r = guarded(move || {
+                let pkt = EncodingPacket::new(PayloadId::new(sbn, esi), data2);
+                pkt.serialize()
+            });
+            let ser = match r {
+                Ok(ser) => {
+                    rec.put(&format!("pkt ser {sbn} {esi} {}", hex(&data)), &hex(&ser));
+                    ser
+                }
+                Err(_) => {
+                    rec.put(&format!("pkt ser {sbn} {esi} {}", hex(&data)), "err");
+                    rec.impl_violation(format!("EncodingPacket::serialize panics sbn={sbn} esi={esi} len={len}"));
+                    continue;
+                }
+            };
+            let ser2 = ser.clone();
+            let data3 = data.clone();
+            let r = guarded(move || {
+                let d = EncodingPacket::deserialize(&ser2);
+                let same = d == EncodingPacket::new(PayloadId::new(sbn, esi), data3);
+                (format!("{} {} {}", d.payload_id().source_block_number(), d.payload_id().encoding_symbol_id(), hex(d.data())), same)
+            });
+            match r {
+                Ok((de, same)) => {
+                    rec.put(&format!("pkt de {}", hex(&ser)), &de);
+                    if !same {
+                        rec.impl_violation(format!("packet round trip sbn={sbn} esi={esi} len={len}"));
+                    }
+                }
+                Err(_) => {
+                    rec.put(&format!("pkt de {}", hex(&ser)), "err");
+                    rec.impl_violation(format!("EncodingPacket::deserialize panics on a serialised packet: sbn={sbn} esi={esi} payload length {len}"));
+                }
             }
             rec.count("pkt");
         }
@@ -120,17 +167,28 @@ pub fn wire(rec: &mut Recorder, rng: &mut Rng, thorough: bool) {
         if it % 11 == 0 { b[8] = *rng.pick(&zedge); b[11] = *rng.pick(&zedge); }
         let mut arr = [0u8; 12];
         arr.copy_from_slice(&b);
-        let o = Oti::deserialize(&arr);
-        rec.put(&format!("oti de {}", hex(&b)), &oti_str(&o));
-        let ser = o.serialize();
-        rec.put(&format!("oti ser {}", oti_str(&o)), &hex(&ser));
-        let mut expect = arr;
-        expect[5] = 0;
-        if ser != expect {
-            rec.impl_violation(format!("OTI re-serialise {}", hex(&b)));
-        }
-        if Oti::deserialize(&ser) != o {
-            rec.impl_violation(format!("OTI round trip {}", oti_str(&o)));
+        let r = guarded(move || {
+            let o = Oti::deserialize(&arr);
+            let ser = o.serialize();
+            let mut expect = arr;
+            expect[5] = 0;
+            (oti_str(&o), ser, ser == expect, Oti::deserialize(&ser) == o)
+        });
+        match r {
+            Ok((os, ser, reser, rt)) => {
+                rec.put(&format!("oti de {}", hex(&b)), &os);
+                rec.put(&format!("oti ser {os}"), &hex(&ser));
+                if !reser {
+                    rec.impl_violation(format!("OTI re-serialise {}", hex(&b)));
+                }
+                if !rt {
+                    rec.impl_violation(format!("OTI round trip {os}"));
+                }
+            }
+            Err(_) => {
+                rec.put(&format!("oti de {}", hex(&b)), "err");
+                rec.impl_violation(format!("OTI deserialize/serialize panics on {}", hex(&b)));
+            }
         }
         rec.count("oti");
     }
